@@ -374,4 +374,39 @@ example : Gen.totalVariationLossG [[1, 2], [1, 2]] = (1 / 2 : ℝ) := by
 example : Gen.multiplaneLossG 1 2 3 [1, 2] [1, 4] [1, 0] = (2 + 0 + 3 * 32 : ℝ) := by
   rw [gen_multiplaneLossG_eq]; simp [multiplaneLoss, mse, sumL, num_sq]; norm_num
 
+open Odak.Gen in
+/-- regenerated `total_variation_loss` of a batched multi-channel `[N, C, H, W]` frame and regenerated
+    `multi_scale_total_variation_loss` (any number of levels): non-negative, zero on uniform frames -/
+theorem C17_gen_tv4_multiscale_nonneg_zero (frame : T4 ℝ) (levels n c h w : Nat) (v : ℝ) :
+    0 ≤ totalVariationLoss4G frame ∧ totalVariationLoss4G (uniform4 n c h w v) = 0 ∧
+    0 ≤ multiScaleTotalVariationLossG frame levels ∧ multiScaleTotalVariationLossG (uniform4 n c h w v) levels = 0 := by
+  rw [gen_totalVariationLoss4G_eq, gen_totalVariationLoss4G_eq, gen_multiScaleTotalVariationLossG_eq,
+    gen_multiScaleTotalVariationLossG_eq]
+  exact ⟨tvLoss4_nonneg frame, tvLoss4_uniform n c h w v, multiScaleTv_nonneg levels frame, multiScaleTv_uniform levels n c h w v⟩
+
+open Odak.Gen in
+/-- regenerated `weber_contrast` / `michelson_contrast` of a single image: zero when both regions have the same mean (uniform
+    image), non-negative when the bright region is at least as bright as the (positive) dark one -/
+theorem C17_gen_contrast_zero_nonneg (img : T2 ℝ) (h0 h1 h2 h3 l0 l1 l2 l3 : Nat) :
+    (regionMean img h0 h1 h2 h3 = regionMean img l0 l1 l2 l3 →
+      weberContrastG img h0 h1 h2 h3 l0 l1 l2 l3 = [0] ∧ michelsonContrastG img h0 h1 h2 h3 l0 l1 l2 l3 = [0]) ∧
+    (0 < regionMean img l0 l1 l2 l3 → regionMean img l0 l1 l2 l3 ≤ regionMean img h0 h1 h2 h3 →
+      ∃ a b : ℝ, weberContrastG img h0 h1 h2 h3 l0 l1 l2 l3 = [a] ∧ michelsonContrastG img h0 h1 h2 h3 l0 l1 l2 l3 = [b] ∧
+        0 ≤ a ∧ 0 ≤ b) := by
+  rw [gen_weberContrastG_eq, gen_michelsonContrastG_eq]
+  constructor
+  · intro e
+    rw [e]
+    obtain ⟨z1, z2, _, _⟩ := contrast_zero_nonneg (regionMean img l0 l1 l2 l3) 1 1 one_pos le_rfl
+    rw [z1, z2]; exact ⟨rfl, rfl⟩
+  · intro hl hh
+    obtain ⟨_, _, n1, n2⟩ := contrast_zero_nonneg 0 _ _ hl hh
+    exact ⟨_, _, rfl, rfl, n1, n2⟩
+
+open Odak.Gen in
+/-- regenerated `radial_basis_function`: values in `(0, 1]`, 1 at 0 -/
+theorem C17_gen_radial_basis_range (value epsilon : ℝ) :
+    0 < radialBasisG value epsilon ∧ radialBasisG value epsilon ≤ 1 ∧ radialBasisG 0 epsilon = 1 := by
+  rw [gen_radialBasisG_eq, gen_radialBasisG_eq]; exact radialBasis_range value epsilon
+
 end Odak
